@@ -161,6 +161,15 @@ Definition ecase_model (c : ecase) : list (obs * view) :=
 Definition ecase_bad (c : ecase) : bool :=
   let '(_, _, _, _, exp) := c in negb (list_eqb step_eqb (ecase_model c) exp).
 
+(* the browser fork has no hook registry and no @join progress: those two fields are not compared *)
+Definition forget_hj (v : view) : view :=
+  mkView (v_cur v) (v_vars v) (v_used v) [] [] (v_content v) (v_choices v) (v_pid v) (v_render v) (v_input v)
+         (v_can_undo v) (v_can_redo v) (v_depth v).
+Definition step_eqb_browser (a b : obs * view) : bool :=
+  obs_eqb (fst a) (fst b) && view_eqb (forget_hj (snd a)) (forget_hj (snd b)).
+Definition ecase_bad_browser (c : ecase) : bool :=
+  let '(_, _, _, _, exp) := c in negb (list_eqb step_eqb_browser (ecase_model c) exp).
+
 (* index of the first differing step, for the replay file *)
 Fixpoint first_diff (a b : list (obs * view)) (i : nat) : option nat :=
   match a, b with
